@@ -27,6 +27,7 @@ Definition init (c : config) (t0 : Q) : cstate :=
      errors := 0; now := t0 |}.
 
 Definition qmax (a b : Q) : Q := if Qle_bool a b then b else a.
+Definition qmin (a b : Q) : Q := if Qle_bool a b then a else b.
 Definition qabs (a : Q) : Q := if Qle_bool 0 a then a else - a.
 
 (* the target as a function of the evaluated cost  (session.py:193-198) *)
@@ -166,16 +167,18 @@ Fixpoint aeval (env : avar -> Q) (e : aexp) : Q :=
   | AMul a b => aeval env a * aeval env b
   | ADiv a b => aeval env a / aeval env b
   | AMax a b => qmax (aeval env a) (aeval env b)
+  | AMin a b => qmin (aeval env a) (aeval env b)
   | AAbs a => qabs (aeval env a)
   | ACeil a => inject_Z (Qceiling (aeval env a))
+  | AInt a => inject_Z (Qfloor (aeval env a))          (* int() of a non-negative number *)
   | AUnknown => 0
   end.
 Fixpoint aknown (e : aexp) : bool :=
   match e with
   | AUnknown => false
   | AVar _ | AConst _ => true
-  | AAdd a b | ASub a b | AMul a b | ADiv a b | AMax a b => aknown a && aknown b
-  | AAbs a | ACeil a => aknown a
+  | AAdd a b | ASub a b | AMul a b | ADiv a b | AMax a b | AMin a b => aknown a && aknown b
+  | AAbs a | ACeil a | AInt a => aknown a
   end.
 (* the variables, given a configuration, a state and what the statement at hand is applied to *)
 Definition aenv (c : config) (s : cstate) (delta len exc extra evalcost : Q) (v : avar) : Q :=
@@ -184,4 +187,5 @@ Definition aenv (c : config) (s : cstate) (delta len exc extra evalcost : Q) (v 
   | VDecay => decay c | VDelta => delta | VErrBase => error_base c | VEvalCost => evalcost | VExcCost => exc
   | VExtra => extra | VFraction => fraction s | VHard => hard c | VInitial => inject_Z (initial c) | VLen => len
   | VNow => now s | VSoft => soft c | VSoftRange => hard c - soft c
+  | VAvg | VCap | VCurrent | VFloor | VTarget | VTrt => 0        (* variables of the recalibration: model/Recalc.v *)
   end.
